@@ -5,6 +5,8 @@ import (
 	"fmt"
 	"github.com/beevik/etree"
 	"math/rand"
+	"strings"
+	"sync"
 	"time"
 
 	"verifharness/idp"
@@ -12,11 +14,15 @@ import (
 	"verifharness/world"
 )
 
+// nearRng picks the near-miss flavour; which flavour is irrelevant to the expected outcome.
+var nearRng = rand.New(rand.NewSource(99))
+var nearMu sync.Mutex
+
 // Profile concretises spec/Profile.tla: faults inside validly signed documents.
 type Profile struct{}
 
 type pRoot struct{ Version, Dest, Issuer, Status string }
-type pAs struct{ Issuer, Subject, Conf, Method, Data, Recipient, Noa string }
+type pAs struct{ Issuer, Subject, Conf, Method, Data, Recipient, Noa, Authn string }
 type pInput struct {
 	Sigmode string `json:"sigmode"`
 	Doc     struct {
@@ -47,6 +53,25 @@ func (Profile) Cap(tier string) int             { return 0 }
 func (Profile) Layouts(tier string) int         { return 1 }
 func (Profile) Extra(string, int64) []orch.Case { return nil }
 
+// nearMiss returns a URL that a lenient comparison would take for base.
+func nearMiss(base string, rng *rand.Rand) string {
+	i := strings.Index(base, "://") + 3
+	switch rng.Intn(6) {
+	case 0:
+		return base + "?next=//evil.example"
+	case 1:
+		return base + "#fragment"
+	case 2:
+		return base[:i] + "attacker@" + base[i:]
+	case 3:
+		return base[:i] + strings.ToUpper(base[i:i+3]) + base[i+3:]
+	case 4:
+		return base + "/"
+	default:
+		return strings.ToUpper(base[:5]) + base[5:]
+	}
+}
+
 func applyRootFaults(r *idp.Response, f pRoot) {
 	switch f.Version {
 	case "absent":
@@ -57,6 +82,10 @@ func applyRootFaults(r *idp.Response, f pRoot) {
 	switch f.Dest {
 	case "other":
 		r.Destination = idp.S("https://evil.example/acs")
+	case "near":
+		if r.Destination != nil {
+			r.Destination = idp.S(nearMiss(*r.Destination, nearRng))
+		}
 	case "absent":
 		r.Destination = nil
 	case "empty":
@@ -93,6 +122,11 @@ func applyAsFaults(a *idp.Assertion, f pAs) {
 		a.Subject.Conf.Data.Recipient = nil
 	case "other":
 		a.Subject.Conf.Data.Recipient = idp.S("https://evil.example/acs")
+	case "near":
+		a.Subject.Conf.Data.Recipient = idp.S(nearMiss(world.ACS, nearRng))
+	}
+	if f.Authn == "absent" {
+		a.Authn = nil
 	}
 	switch f.Noa {
 	case "absent":
@@ -124,6 +158,8 @@ func (Profile) Run(c *orch.Case) *orch.Outcome {
 	lay := layoutFor(rng, true)
 	b := idp.NewBuilder(lay, c.Seed+1)
 	rs := genuineRoot()
+	nearMu.Lock()
+	nearRng = rand.New(rand.NewSource(c.Seed + 5))
 	applyRootFaults(rs, in.Doc.Root)
 	root := b.ResponseEl(rs)
 	var els []*etree.Element
@@ -135,6 +171,7 @@ func (Profile) Run(c *orch.Case) *orch.Outcome {
 		root.AddChild(el)
 		els = append(els, el)
 	}
+	nearMu.Unlock()
 	b.Decorate(root)
 	switch in.Sigmode {
 	case "assert":
